@@ -23,6 +23,9 @@ Driver for C20. Node names are numbers (`dtn://n<k>/` ↦ `k`, the node itself i
   bc <sent0> <steps>      steps = `clas|sends;…`: successive forwarding attempts of one broadcast bundle
   blk <own> <block>       the DTLSR block of the node's own broadcast vs. its `peers`
   fwd <table> <clas> <dest> <sends> <released>     a unicast bundle through `Core.forward`
+  own up|down <peer> <ok>   after ReportPeerAppeared the own link is live (0); after
+      ReportPeerDisappeared its loss time lies between the clock readings around the call
+  hang <n> <links> / panic <n> <links>    `recomputeCron` did not return within 5 s / panicked
 -/
 open Dtn7.Dtlsr Driver
 
@@ -188,27 +191,25 @@ def tabModelDiff (now : Nat) (st : State) (goTab : Table) : Option String :=
 
 def handleTab (n t0 j : Nat) (links : List Link) (known : List Nat) (goTab : Table) (index : List Nat) :
     String :=
-  -- sanity of the node index (bijection onto the known nodes, own node first)
-  let mentioned := dedupNat (0 :: (links.flatMap fun l => [l.u, l.v]) ++ known)
-  if index.head? != some 0 || (dedupNat index).length != index.length ||
-      !(mentioned.all index.contains) || !(index.all (· < n)) then
-    s!"diff index impl={index} mentioned={sortNat mentioned}"
-  else
-    let st := modelState t0 links known index
-    let deltas := List.range (j + 1)
-    let specOk (δ : Nat) : Bool :=
-      let g := specGraph n links δ
-      checkTable g goTab (mkCert g goTab)
-    let okBoth := deltas.find? fun δ => specOk δ && (tabModelDiff (t0 + δ) st goTab).isNone
-    match okBoth with
-    | some _ => "ok"
-    | none =>
-      match deltas.find? specOk with
-      | none =>
-        let g := specGraph n links 0
-        s!"specfail {classify g goTab} table={showTable goTab} J={j}"
-      | some δ =>
-        s!"diff tab delta={δ} {(tabModelDiff (t0 + δ) st goTab).getD "?"}"
+  let deltas := List.range (j + 1)
+  let specOk (δ : Nat) : Bool :=
+    let g := specGraph n links δ
+    checkTable g goTab (mkCert g goTab)
+  match deltas.find? specOk with
+  | none =>
+    let g := specGraph n links 0
+    s!"specfail {classify g goTab} table={showTable goTab} J={j}"
+  | some δ0 =>
+    -- sanity of the node index (bijection onto the known nodes, own node first)
+    let mentioned := dedupNat (0 :: (links.flatMap fun l => [l.u, l.v]) ++ known)
+    if index.head? != some 0 || (dedupNat index).length != index.length ||
+        !(mentioned.all index.contains) || !(index.all (· < n)) then
+      s!"diff index impl={index} mentioned={sortNat mentioned}"
+    else
+      let st := modelState t0 links known index
+      match deltas.find? fun δ => specOk δ && (tabModelDiff (t0 + δ) st goTab).isNone with
+      | some _ => "ok"
+      | none => s!"diff tab delta={δ0} {(tabModelDiff (t0 + δ0) st goTab).getD "?"}"
 
 /-! ### lib -/
 
@@ -423,6 +424,12 @@ def handle (line : String) : String :=
     match parsePairs table, parseNatList clas, dest.toNat?, parseSends sends with
     | some t, some c, some d, some s => handleFwd t c d s (rel == "1")
     | _, _, _, _ => "skip parse"
+  | ["own", what, _peer, ok] =>
+    if ok == "1" then "ok"
+    else if what == "up" then "specfail own-link-not-live-after-peer-appeared"
+    else "specfail own-link-loss-time-not-the-time-of-disappearance"
+  | "hang" :: _ => "specfail recompute-does-not-terminate the cron body did not return within 5 s"
+  | "panic" :: _ => "specfail panic-in-recompute"
   | _ => "skip unknown-op"
 
 def main : IO Unit := run handle
